@@ -52,7 +52,8 @@ def build_case(Ls, Rs, opts):
     except treeenc.PathProblem as ex:
         # the implementation emitted a path that does not select exactly one node: cannot be
         # named by id; reported by the C04 oracle, not a correspondence case
-        return {"term": None, "desc": desc, "matches": matches, "raw": "PathProblem:%s" % (ex.args,), "run": run, "c07": c07}
+        return {"term": None, "desc": desc, "matches": matches, "raw": list(run.raw), "path_problem": "%s %s" % ex.args,
+                "run": run, "c07": c07}
     except Exception as ex:  # noqa
         sterm, raw = "None", "exc:" + type(ex).__name__
     F = opts.get("F")
@@ -87,6 +88,9 @@ def build_case(Ls, Rs, opts):
 def in_model_domain(desc):
     L, R = etree.fromstring(desc["left"]), etree.fromstring(desc["right"])
     if L.nsmap.get(None) != R.nsmap.get(None):
+        return False
+    import re
+    if any(k is not None and re.match(r"ns\d+", k, flags=re.ASCII) for k in list(L.nsmap) + list(R.nsmap)):
         return False
     for root in (L, R):
         top = set(root.nsmap.values())
